@@ -358,6 +358,15 @@ fn main() {
         ],
         ptys: vec![("f64", run_agg_plain::<f64> as RunP), ("i32", run_agg_plain::<i32>), ("i64", run_agg_plain::<i64>)],
     };
+    // narrow element types with values whose squares / sums leave the element type's exact range
+    // (50001^2 > i32::MAX and is not an f32): everything must be accumulated in f64
+    let wide = Numeric {
+        name: "numeric-wide".into(),
+        alpha: vec![None, Some(1.0), Some(3.0), Some(50001.0), Some(-50001.0)],
+        max_len: run.pick(4, 5),
+        tys: vec![("i32", run_agg_valid::<i32> as RunV), ("Option<i32>", run_agg_valid::<Option<i32>>), ("f32", run_agg_valid::<f32>), ("i64", run_agg_valid::<i64>)],
+        ptys: vec![("i32", run_agg_plain::<i32> as RunP), ("i64", run_agg_plain::<i64>)],
+    };
     let pairs = Pairs { alpha: vec![None, Some(0.0), Some(1.0), Some(3.0)], max_len: run.pick(4, 5) };
     let bools = Bools { max_len: run.pick(7, 11) };
     if let Some(path) = &run.replay {
@@ -371,11 +380,13 @@ fn main() {
         match case["family"].as_str().unwrap_or("") {
             "pairs" => pairs.check_word(&word, &mut ctx),
             "bools" => bools.check_word(&word, &mut ctx),
+            "numeric-wide" => wide.check_word(&word, &mut ctx),
             _ => num.check_word(&word, &mut ctx),
         }
         std::process::exit(finish_replay(&run, &stored, ctx));
     }
     let mut total = explore_tree(&num, run.threads);
+    total.merge(explore_tree(&wide, run.threads));
     total.merge(explore_tree(&pairs, run.threads));
     total.merge(explore_tree(&bools, run.threads));
     let meta = Meta {
